@@ -70,6 +70,18 @@ def step (st : St) (toks : List String) : St × String :=
       ({ m := m', s := Spec.step st.s op, prev := st.s.items },
         s!"seen={showItems before} blocked={blocked} " ++ obs m' ret)
     | _, _ => (st, "bad-op")
+  | "oracle" :: "dump" :: rest =>
+    -- the queue dump: per queue `name:reported:listed` must be `name:n:n` for the `name:n` of `want`, and the
+    -- summary must report the total
+    match kv? "want" rest, kv? "got" rest, (kv? "total" rest).bind String.toNat?, (kv? "sum" rest).bind String.toNat? with
+    | some want, some got, some total, some sum =>
+      let expect := (strList want).map fun w =>
+        match w.splitOn ":" with
+        | [n, k] => n ++ ":" ++ k ++ ":" ++ k
+        | _ => w
+      if strList got == expect && sum == total then (st, "true")
+      else (st, s!"false want-got={showStrs expect} want-sum={total}")
+    | _, _, _, _ => (st, "bad-op")
   | "oracle" :: "iter" :: rest =>
     -- what a walk over the queue shows is a list the queue held: the one before or the one after
     -- the concurrent removal
